@@ -63,7 +63,7 @@ def gen(ctx):
         rng.shuffle(cells)
         order = cells if rng.random() < 0.5 else cells[:rng.randint(1, N)]
         k = rng.randint(2, 4)
-        yield dict(kind="as1", hist=[[rng.randrange(k) for _ in range(N)]], order=order,
+        yield dict(kind="as1", hist=[[rng.randrange(k) for _ in range(N)] for _ in range(rng.choice([1, 1, 2, 3]))], order=order,
                    T=rng.randint(1, 3 * len(order) + 2), r=rng.choice([1, 1, 2]) if N >= 2 else 1,
                    inner=rng.choice(["hash:%d:3:1:0" % k, "probe:%d:2:1:0" % k]), rand=int(rng.random() < 0.3),
                    seed=rng.randrange(10 ** 6))
@@ -146,7 +146,10 @@ def oracle(c):
         num = c["num"]
         allc = list(range(num)) if isinstance(num, int) else [(i, j) for i in range(num[0]) for j in range(num[1])]
         return None if sorted(res) == sorted(allc) else "order generated from num_cells is not a permutation of all cells: %s" % (res,)
-    states = res.tolist()
+    H = len(c["hist"])
+    if res.tolist()[:H] != c["hist"]:
+        return "the given history is not returned unchanged"
+    states = res.tolist()[H - 1:]
     order0 = c["order"] if c["kind"] == "as1" else [tuple(x) for x in c["order"]]
     L = len(order0)
     cur_order = list(order0)
